@@ -232,6 +232,25 @@ def run_case(case):
                               counter="read_sync_checked")
                     res.check(np.array_equal(sy[:, 16:], A), "read_sync:nidq-analog",
                               f"thresholded analog lines differ (xa={xa}, {int((sy[:, 16:] != A).sum())} samples)", counter="analog_lines_checked")
+            # every read stands on its own: the floor of an analog line is taken from the window read, not from an earlier window of the same reader
+            # (a second recording whose analog baseline steps up by ~1.6 V half-way, read window by window in both orders, with one reader)
+            recd = G.make_nidq(rng, mn=mn, ma=ma, xa=1, dw=1, acq=None, mn_gain=1.0, aimax=aimax, ns=ns, fs=25000.0)
+            half = ns // 2
+            xd, posd, pold = train(rng, ns, int(rng.integers(6, 30)), min_gap=5)
+            base = np.where(np.arange(ns) < half, float(rng.uniform(-0.5, 0.2)), float(rng.uniform(1.5, 1.9)))
+            vd = base + np.where(xd == 1, 2.5, 0.0) + rng.uniform(-0.02, 0.02, ns)
+            recd.raw[:, mn + ma] = np.clip(np.round(vd / i2v), -32768, 32767).astype(np.int16)
+            bd = G.write(recd, scratch() / "drift")
+            ok_lo = np.mean(xd[:half] == 0) >= 0.15 and np.mean(xd[half:] == 0) >= 0.15
+            if ok_lo:
+                for order_ in ((slice(0, half), slice(half, ns)), (slice(half, ns), slice(0, half))):
+                    srd = spikeglx.Reader(bd)
+                    for sl in order_:
+                        syd = srd.read_sync(sl)
+                        res.check(syd.shape == (sl.stop - sl.start, 17) and np.array_equal(syd[:, 16], xd[sl]), "read_sync:nidq-window-history",
+                                  f"nidq read_sync({sl}) after {'no' if sl is order_[0] else 'an'} earlier read of the other half (baseline step half-way): analog line differs at "
+                                  f"{int((syd[:, 16] != xd[sl]).sum()) if syd.shape[0] == sl.stop - sl.start else '?'} samples", counter="analog_lines_checked")
+                    srd.close()
             # an empty selection gives zero rows with the full line count (digital + analog), not an error
             for sl in (slice(7, 7), slice(ns, ns + 5), slice(5, 2)):
                 sy = sr.read_sync(sl)
